@@ -195,3 +195,47 @@ def correspond(ctx):
         corr(ctx, ctx.n(150, 600), generations=2)
     else:
         corr(ctx, ctx.n(400, 1500))
+
+
+# ---------------------------------------------------------------------------------------------
+# search: a post-SCF density whose label cannot name the method (lot absent or without MP2 / MP3 / CC / CI)
+
+UNLABELLED_LOTS = [None, "hf", "B3LYP", "rhf/6-31g", "pbe0"]
+
+
+def postscf_eval(lot, keys):
+    """a post-SCF density written for a level of theory the label cannot name must not be lost silently: either the writer
+    refuses the object before anything is written (PrepareDumpError) or the reload holds the matrix; returns (sig, what) or None"""
+    q, _, _ = FCHKW.gen(__import__("random").Random(7), 2, 0)
+    q["lot"] = lot
+    q["rdms"] = {k: (False, 123456789 + j, 0) for j, k in enumerate(keys)}
+    x = FCHKW.build(q)
+    r = F.real_dump(x, "fchk")
+    if not r.ok:
+        return None if r.err == "PrepareDumpError" else ("fchk-w:post-scf:refused:" + r.err, f"FCHK: unexpected refusal {r.exc!r}")
+    l = F.real_load(r.value, "fchk")
+    if not l.ok:
+        return ("fchk-w:post-scf:reload-fails", "FCHK: file with a post-SCF density cannot be read back")
+    lost = [k for k in keys if k not in (l.value.one_rdms or {})]
+    if lost:
+        return ("fchk-w:post-scf-density-dropped", f"FCHK: one_rdms[{lost[0]!r}] written for lot={lot!r} is silently dropped on reload")
+    return None
+
+
+def search(ctx):
+    if ctx.prop != "C02":
+        return
+    for lot in UNLABELLED_LOTS:
+        for keys in (["post_scf_ao"], ["post_scf_spin_ao"], ["post_scf_ao", "post_scf_spin_ao"], ["scf", "post_scf_ao"]):
+            res = postscf_eval(lot, keys)
+            ctx.count("search:fchk-postscf", [lot, keys], f"lot={lot}/keys={len(keys)}" + ("" if res is None else "/FAIL"))
+            if res:
+                ctx.fail(res[0], res[1], {"kind": "c02", "format": "fchk-postscf", "spec": {"lot": lot, "keys": keys}})
+
+
+class _ReplayPost:
+    def replay(self, inp):
+        return postscf_eval(inp["spec"]["lot"], inp["spec"]["keys"]) is not None
+
+
+REPLAY = {"fchk-postscf": _ReplayPost()}
